@@ -754,7 +754,7 @@ func c20RunCase(slot int, c *c20Case) (recs []c20StepRec) {
 			}
 			if !sp.Sync.usable() {
 				// no sync hook to call: a decorator worker dies on its first sync instead
-				wantPanic = c20NosyncAlone && !run.sawPanic
+				wantPanic = false // since the repair of D18 a missing sync hook is a sync error, not a worker panic
 				continue
 			}
 			wants = append(wants, fmt.Sprintf("%s/%d", short, e[0]))
